@@ -113,17 +113,17 @@ Replay(lg) ==
   IN  FoldLeft(LAMBDA c, e : IF e.id \in ok THEN ApplyRec(c, e.r) ELSE c, Empty, lg)
 
 \* records of a committing transaction: only the last one carries the marker
-\* (d: "in doubt", see F-C12-1 below)
+\* (d: "in doubt", see F-C12-4 below)
 Stamp(id, rs) == [i \in 1..Len(rs) |-> [id |-> id, c |-> (i = Len(rs)), r |-> rs[i], d |-> FALSE]]
 \* the first n records of a failed commit: none carries the marker
 StampFailed(id, rs, n) == [i \in 1..n |-> [id |-> id, c |-> FALSE, r |-> rs[i], d |-> FALSE]]
-\* Known finding F-C12-1: a Commit that fails at the Sync of its last record
+\* Known finding F-C12-4: a Commit that fails at the Sync of its last record
 \* has already written every record, the last one marked: the process does
 \* not apply the transaction, but the complete transaction sits at the tail
 \* of the active file.  A reopen shows it; the next commit that fits into
 \* the active file overwrites it (the write offset was not advanced), one
 \* that rotates first leaves it there for good.
-F_SyncDoubt == "F-C12-1"
+F_SyncDoubt == "F-C12-4"
 StampDoubt(id, rs) == [i \in 1..Len(rs) |-> [id |-> id, c |-> (i = Len(rs)), r |-> rs[i], d |-> TRUE]]
 \* the logs the next write may find: as is, or with the in-doubt tail overwritten
 TailDoubt(lg) == lg # <<>> /\ lg[Len(lg)].d
